@@ -89,6 +89,10 @@ def _comment():
     marks["big"] = {"excludes": "small1 small2"}
     marks["small1"] = {}
     marks["small2"] = {}
+    # two mutually exclusive types with a neutral one ranked between them
+    marks["sub"] = {"excludes": "sub sup"}
+    marks["mid"] = {}
+    marks["sup"] = {"excludes": "sup sub"}
     nodes["doc"] = {"content": "block+", "marks": "comment"}
     return _mk(nodes, marks)
 
